@@ -94,6 +94,7 @@ def sop? : Sexp → Option SOp
   | .list [.atom "reopenf", _, _] => some .reopenf
   | .list [.atom "afault", c] => (nat? c).map .afault
   | .list [.atom "svce"] => some .svce
+  | .list [.atom "norefresh", _] => some .nop
   | .list [.atom "rxix", ca] => (nat? ca).map .rxix
   | .list [.atom "closeix", ca] => (nat? ca).map .closeix
   | .list [.atom "closeall"] => some .closeall
